@@ -7,7 +7,10 @@ package resmgr
 // clauses and attribution only.
 
 import (
+	"context"
+	"encoding/json"
 	"fmt"
+	"os"
 	"path/filepath"
 	"sort"
 	"strconv"
@@ -448,4 +451,166 @@ func sortedIDs[V any](m map[string]V) []string {
 	}
 	sort.Strings(ids)
 	return ids
+}
+
+// ---------------------------------------------------------------------------
+// C09
+
+// oracleC09 (per request): a container the runtime has stopped or removed holds nothing.
+func oracleC09(x *exec, v *viols, pre, post *snap, rp *reply) {
+	all := append(append([]*wctr{}, x.w.ctrs...), x.w.old...)
+	for _, c := range all {
+		if c.life != lifeStopped && c.life != lifeRemoved {
+			continue
+		}
+		what := lifeNames[c.life]
+		if post.TA != nil {
+			for _, g := range post.TA.Grants {
+				if g.ID == c.id() {
+					v.add("dead-container-holds-grant", "dead-container-holds-grant:"+what+":"+strings.Split(rp.ev, ":")[0], "after %s the %s container %s holds grant %+v", rp.ev, what, c.id(), g)
+				}
+			}
+		}
+		if post.BL != nil {
+			for _, b := range post.BL.Balloons {
+				for _, id := range b.Containers {
+					if id == c.id() {
+						v.add("dead-container-in-balloon", "dead-container-in-balloon:"+what+":"+strings.Split(rp.ev, ":")[0], "after %s the %s container %s is a member of balloon %s", rp.ev, what, c.id(), b.Name)
+					}
+				}
+			}
+		}
+		if _, ok := post.MemZone[c.id()]; ok {
+			v.add("dead-container-holds-memory", "dead-container-holds-memory:"+what+":"+strings.Split(rp.ev, ":")[0], "after %s the %s container %s holds a memory allocation", rp.ev, what, c.id())
+		}
+	}
+}
+
+var pristineCache = map[string]*snap{}
+
+func pristine(s *scenario, cfgIdx int) *snap {
+	key := fmt.Sprintf("%s/%d", s.name, cfgIdx)
+	if p, ok := pristineCache[key]; ok {
+		return p
+	}
+	dir := scratchDir() + "-pristine"
+	os.RemoveAll(dir)
+	os.MkdirAll(dir, 0o755)
+	in, err := newInst(s, dir, cfgIdx)
+	if err != nil {
+		pristineCache[key] = nil
+		return nil
+	}
+	x := &exec{scn: s, w: newWorld(s), in: in, dir: dir}
+	x.w.cfgIdx = cfgIdx
+	p := x.snapshot()
+	pristineCache[key] = p
+	os.RemoveAll(dir)
+	return p
+}
+
+// drainC09 extends the state with "stop and remove everything" and compares with the pristine state.
+func drainC09(w *mc.Worker, s *scenario, dir string, trace []string, x *exec, post *snap) []mc.Violation {
+	if x.in.dead {
+		return nil
+	}
+	v := &viols{prop: "C09", scn: s.name, trace: append(append([]string{}, trace...), "<drain>")}
+	var drain []string
+	for _, c := range x.w.ctrs {
+		if c.live() {
+			drain = append(drain, "stop:"+c.slot)
+		}
+		if c.live() || c.life == lifeStopped || c.life == lifeFailed {
+			drain = append(drain, "remove:"+c.slot)
+		}
+	}
+	for _, c := range x.w.old {
+		// earlier incarnations that were never removed
+		if c.life == lifeStopped {
+			oc := c
+			rp := &reply{ev: "remove:" + oc.id()}
+			x.last = rp
+			mc.Guard(func() { x.in.m.nri.RemoveContainer(context.Background(), oc.pod.nri(), oc.nri(oc.state(), oc.told)) })
+			oc.life = lifeRemoved
+		}
+	}
+	for _, p := range x.w.pods {
+		if p.life == lifeRunning {
+			drain = append(drain, "stoppod:"+p.slot)
+		}
+		if p.life == lifeRunning || p.life == lifeStopped {
+			drain = append(drain, "rmpod:"+p.slot)
+		}
+	}
+	for _, ev := range drain {
+		rp := x.step(ev)
+		if rp.panic != "" {
+			pv := &viols{prop: "C14", scn: s.name, trace: v.trace}
+			pv.add("panic", "panic@"+rp.where+":"+strings.Split(ev, ":")[0], "drain event %s panics: %s", ev, rp.panic)
+			return pv.out
+		}
+	}
+	end := x.snapshot()
+	ref := pristine(s, x.w.cfgIdx)
+	if ref == nil {
+		return nil
+	}
+	if len(end.Cache) != 0 {
+		v.add("cache-not-empty", "cache-not-empty", "after removing everything the cache still holds containers %v", sortedIDs(end.Cache))
+	}
+	if len(end.MemReqs) != 0 {
+		v.add("memory-leak", "memory-leak", "after removing everything the memory allocator still holds %+v", end.MemReqs)
+	}
+	if end.TA != nil {
+		if len(end.TA.Grants) != 0 {
+			v.add("grant-leak", "grant-leak", "after removing everything grants remain: %+v", end.TA.Grants)
+		}
+		for i, p := range end.TA.Pools {
+			if i >= len(ref.TA.Pools) {
+				break
+			}
+			r := ref.TA.Pools[i]
+			if p.FreeSharable != r.FreeSharable || p.FreeIsolated != r.FreeIsolated || p.FreeReserved != r.FreeReserved ||
+				p.TreeGrantedShared != r.TreeGrantedShared || p.TreeGrantedRsvd != r.TreeGrantedRsvd || p.AllocatableShared != r.AllocatableShared {
+				v.add("pool-not-pristine", "pool-not-pristine", "pool %s after removing everything: %+v, right after configuration: %+v", p.Name, p, r)
+			}
+		}
+	}
+	if end.BL != nil {
+		a, _ := json.Marshal(end.BL)
+		b, _ := json.Marshal(ref.BL)
+		if string(a) != string(b) {
+			// compare what the property states: only pre-created balloons at minimum size, all other CPUs idle
+			if len(end.BL.Balloons) != len(ref.BL.Balloons) {
+				names := []string{}
+				for _, bl := range end.BL.Balloons {
+					names = append(names, fmt.Sprintf("%s{%s}", bl.Name, bl.Cpus))
+				}
+				v.add("balloon-leak", "balloon-leak", "after removing everything balloons are %v, right after configuration there are %d", names, len(ref.BL.Balloons))
+			} else {
+				for i, bl := range end.BL.Balloons {
+					r := ref.BL.Balloons[i]
+					if bl.Name != r.Name || bl.CpuCount != r.CpuCount || len(bl.Containers) != 0 {
+						v.add("balloon-not-pristine", "balloon-not-pristine", "balloon %s after removing everything: %d CPUs (%s), containers %v; pristine %s: %d CPUs", bl.Name, bl.CpuCount, bl.Cpus, bl.Containers, r.Name, r.CpuCount)
+					}
+				}
+			}
+			if parseSet(end.BL.Free).Size() != parseSet(ref.BL.Free).Size() {
+				v.add("free-cpus-not-pristine", "free-cpus-not-pristine", "free CPUs after removing everything: %s, pristine: %s", end.BL.Free, ref.BL.Free)
+			}
+		}
+	}
+	// public view: zones
+	if len(end.Zones) == len(ref.Zones) && end.TA != nil {
+		for i, z := range end.Zones {
+			a, _ := json.Marshal(z)
+			b, _ := json.Marshal(ref.Zones[i])
+			if string(a) != string(b) {
+				v.add("zone-not-pristine", "zone-not-pristine", "zone %s after removing everything: %s, pristine: %s", z.Name, a, b)
+			}
+		}
+	} else if len(end.Zones) != len(ref.Zones) {
+		v.add("zone-count", "zone-count", "%d zones after removing everything, %d right after configuration", len(end.Zones), len(ref.Zones))
+	}
+	return v.out
 }
